@@ -354,3 +354,43 @@ pub fn midrun_tree_errors<V: VidOf>(d: &Dump<'_, Key, V>, hash: HashKind) -> Vec
     }
     out
 }
+
+/// Every address a reader or writer that starts from the map's roots can reach by following
+/// the pointers lookups, iterators and updates follow: tables, bin heads, `next`, `first`,
+/// `root`, `left`, `right`, value pointers. (`parent`/`prev` are deliberately left out: they are
+/// only followed by a writer that already holds the node.)
+pub fn reachable_addresses<V>(d: &Dump<'_, Key, V>) -> std::collections::BTreeSet<usize> {
+    let mut out = std::collections::BTreeSet::new();
+    for t in [&d.table, &d.next].into_iter().flatten() {
+        out.insert(t.addr);
+        if t.next_table != 0 {
+            out.insert(t.next_table);
+        }
+        for b in &t.bins {
+            match b {
+                BinDump::List { nodes, .. } => {
+                    for n in nodes {
+                        out.insert(n.addr);
+                        out.insert(n.value_addr);
+                        out.insert(n.next);
+                    }
+                }
+                BinDump::Tree { addr, root, first, nodes, .. } => {
+                    out.insert(*addr);
+                    out.insert(*root);
+                    out.insert(*first);
+                    for n in nodes {
+                        out.insert(n.addr);
+                        out.insert(n.value_addr);
+                        out.insert(n.next);
+                        out.insert(n.left);
+                        out.insert(n.right);
+                    }
+                }
+                _ => {}
+            }
+        }
+    }
+    out.remove(&0);
+    out
+}
